@@ -1020,6 +1020,7 @@ htp_status_t htp_tx_res_process_body_data_ex(htp_tx_t *tx, const void *data, siz
 
 htp_status_t htp_tx_state_request_complete_partial(htp_tx_t *tx) {
     if (tx == NULL) return HTP_ERROR;
+    HTP_VERIF_TP(tx->connp, tx, "req_completing");
 
     // Finalize request body.
     if (htp_tx_req_has_body(tx)) {
@@ -1206,6 +1207,7 @@ htp_status_t htp_tx_state_response_complete_ex(htp_tx_t *tx, int hybrid_mode) {
     if (tx == NULL) return HTP_ERROR;
 
     if (tx->response_progress != HTP_RESPONSE_COMPLETE) {
+        HTP_VERIF_TP(tx->connp, tx, "res_completing");
         tx->response_progress = HTP_RESPONSE_COMPLETE;
 
         // Run the last RESPONSE_BODY_DATA HOOK, but only if there was a response body present.
@@ -1237,6 +1239,7 @@ htp_status_t htp_tx_state_response_complete_ex(htp_tx_t *tx, int hybrid_mode) {
         // that many inbound transactions have been processed, and that the parser is
         // waiting on a response that we have not seen yet.
         if ((tx->connp->in_status == HTP_STREAM_DATA_OTHER) && (tx->connp->in_tx == tx->connp->out_tx)) {
+            HTP_VERIF_TP(tx->connp, tx, "res_complete_early_yield");
             return HTP_DATA_OTHER;
         }
 
@@ -1245,6 +1248,7 @@ htp_status_t htp_tx_state_response_complete_ex(htp_tx_t *tx, int hybrid_mode) {
         if (tx->connp->out_data_other_at_tx_end) {
             // We do. Let's yield then.
             tx->connp->out_data_other_at_tx_end = 0;
+            HTP_VERIF_TP(tx->connp, tx, "res_complete_early_yield");
             return HTP_DATA_OTHER;
         }
     }
